@@ -247,7 +247,7 @@ func genBatch(t *rapid.T) batchCase {
 	for i := 0; i < n; i++ {
 		f := modbus.Field{Name: fmt.Sprintf("f%d", i)}
 		f.ServerAddress = servers[rapid.IntRange(0, nServers-1).Draw(t, "server")]
-		f.UnitID = uint8(rapid.IntRange(0, nUnits-1).Draw(t, "unit"))
+		f.UnitID = []uint8{0, 255, 1, 128}[rapid.IntRange(0, nUnits-1).Draw(t, "unit")]
 		// kind: mostly the requested kind
 		coil := wantCoils
 		if rapid.IntRange(0, 5).Draw(t, "otherkind") == 0 {
